@@ -1082,6 +1082,9 @@ func (x *Xlat) callContract(st *State, fr *Frame, out *Outcomes, fi *FuncInfo, a
 	env2.vars = env.vars
 	env2.setResults(fi, rs)
 	for _, e := range spec.Ensures {
+		if !e.inView(x.view) {
+			continue
+		}
 		st.assume(env2.evalBool(e.Expr))
 	}
 	return rs
